@@ -431,7 +431,21 @@ def _deepcopy(I, a, k, memo=None):
     return dc(a[0])
 
 
+_EXT = None
+
+
 def default_ext(ctx_time=None):
+    """Process-wide external-module models (module-level `import numpy as np` in cached modules binds them once)."""
+    global _EXT
+    if _EXT is None:
+        _EXT = _make_ext()
+        from . import hdom
+
+        hdom.install_numpy_h_on(_EXT)
+    return _EXT
+
+
+def _make_ext():
     ext = {}
     ext["numpy"] = make_numpy()
     ext["itertools"] = ExtMod("itertools", {"product": NativeFn("product", _product)})
